@@ -323,9 +323,13 @@ def fam_yield():
                     else:
                         body = seq(P(V("i")), val)
                     yield ("try", ("for", cl, ("yield", body, into)), "e", I(-1))
-                    if cs in ("one", "guard") and bd in ("plain", "breakv", "print"):
+                    if cs in ("one", "guard"):
+                        # a key whose value expression leaves the iteration (continue / break) must not appear in the result
                         key = ("bin", "<", V("i"), I(2))
                         yield ("try", ("for", cl, ("yieldkv", key, body, into)), "e", I(-1))
+                        if bd in ("break", "continue", "breakv"):
+                            yield ("try", ("for", cl, ("yieldkv", V("i"), body, into)), "e", I(-1))
+                            yield ("try", ("for", cl, ("yieldkv", seq(P(I(5)), V("i")), body, into)), "e", I(-1))
 
 
 def fam_eval():
